@@ -2275,4 +2275,532 @@ theorem hashGrow_spec {o : Ops K} {h : HMap K V} (hw : WF o h) (hold : h.old = n
         · rw [e1, Nat.pow_succ]; omega
         · rw [e2] at e; cases e
 
+/-! ## the operations of map.go against the association list -/
+
+/-- a header whose bucket array is not allocated yet (`make(map[k]v)` with a small hint) -/
+structure Lazy (h : HMap K V) : Prop where
+  buckets : h.buckets = #[]
+  B : h.B = 0
+  count : h.count = 0
+  old : h.old = none
+  ssg : h.sameSizeGrow = false
+
+/-- the invariant between operations -/
+def Inv (o : Ops K) (h : HMap K V) : Prop := WF o h ∨ Lazy h
+
+omit [Inhabited K] [Inhabited V] in
+theorem abs_lazy {h : HMap K V} (hl : Lazy h) : abs h = [] := by
+  unfold abs allCells cellsOf; rw [hl.buckets, hl.old]; rfl
+
+theorem abs_nil_of_count {o : Ops K} {h : HMap K V} (hi : Inv o h) (hc : h.count = 0) : abs h = [] := by
+  rcases hi with hw | hl
+  · have := hw.count; rw [hc] at this; exact List.eq_nil_of_length_eq_zero this.symm
+  · exact abs_lazy hl
+
+theorem inv_count {o : Ops K} {h : HMap K V} (hi : Inv o h) : h.count = (abs h).length := by
+  rcases hi with hw | hl
+  · exact hw.count
+  · rw [abs_lazy hl, hl.count]; rfl
+
+theorem inv_nodup {o : Ops K} {h : HMap K V} (hi : Inv o h) : NoDupKeys o.eq (abs h) := by
+  rcases hi with hw | hl
+  · exact hw.nodup
+  · rw [abs_lazy hl]; exact List.Pairwise.nil
+
+omit [Inhabited K] [Inhabited V] in
+theorem abs_same {h h' : HMap K V} (hs : Same h h') : abs h' = abs h := by
+  unfold abs allCells; rw [hs.buckets, hs.old]
+
+theorem wf_same {o : Ops K} {h h' : HMap K V} (hw : WF o h) (hs : Same h h') : WF o h' := by
+  have hn : h'.noldbuckets = h.noldbuckets := noldbuckets_congr hs.B hs.ssg
+  refine ⟨by rw [hs.buckets, hs.B]; exact hw.size, ?_, by rw [abs_same hs, hs.count]; exact hw.count,
+    by rw [abs_same hs]; exact hw.nodup, ?_⟩
+  · intro i hi
+    have hi' : i < h.buckets.size := by rw [hs.buckets] at hi; exact hi
+    have : h'.buckets[i] = h.buckets[i] := by simp [hs.buckets]
+    rw [this, hs.hash0, hs.B]; exact hw.newOK i hi'
+  · have hO := hw.old
+    rw [hs.old]
+    cases hold : h.old with
+    | none => rw [hold] at hO; simpa [hs.ssg] using hO
+    | some oa =>
+      rw [hold] at hO
+      simp only at hO ⊢
+      refine ⟨by rw [hn]; exact hO.size, by rw [hs.ssg, hs.B]; exact hO.bpos, by rw [hs.nev]; exact hO.nevac,
+        fun j hj hjn => hO.done j hj (by rw [← hs.nev]; exact hjn), fun j hj => ⟨(hO.chains j hj).1, fun e => ?_⟩⟩
+      obtain ⟨a1, a2, a3, a4, a5, a6, a7⟩ := (hO.chains j hj).2 e
+      exact ⟨a1, a2, by rw [hs.hash0, hn]; exact a3, a4, a5, by rw [hs.buckets]; exact a6,
+        fun e' => by rw [hs.buckets, hn]; exact a7 (by rw [← hs.ssg]; exact e')⟩
+
+theorem lazy_same {h h' : HMap K V} (hl : Lazy h) (hs : Same h h') : Lazy h' :=
+  ⟨hs.buckets.trans hl.buckets, hs.B.trans hl.B, hs.count.trans hl.count, hs.old.trans hl.old, hs.ssg.trans hl.ssg⟩
+
+theorem inv_same {o : Ops K} {h h' : HMap K V} (hi : Inv o h) (hs : Same h h') : Inv o h' := by
+  rcases hi with hw | hl
+  · exact Or.inl (wf_same hw hs)
+  · exact Or.inr (lazy_same hl hs)
+
+/-- `h.buckets = newobject(t.Bucket)` on first use -/
+theorem wf_alloc {o : Ops K} {h : HMap K V} (hl : Lazy h) : WF o { h with buckets := #[freshBucket K V] } := by
+  have habs : abs { h with buckets := #[freshBucket K V] } = [] := by
+    unfold abs allCells cellsOf
+    simp only [hl.old, Option.getD_none, chainAbs_append]
+    simp [freshBucket_abs]
+  apply wf_intro
+  · simp [hl.B]
+  · intro i c hc
+    have : i = 0 ∧ c = freshBucket K V := by
+      cases i with
+      | zero => simp at hc; exact ⟨rfl, hc.symm⟩
+      | succ i => simp at hc
+    rw [this.2]; exact freshBucket_ok _ _ _ _
+  · rw [habs]; exact hl.count
+  · rw [habs]; exact List.Pairwise.nil
+  · simp only [hl.old]; exact hl.ssg
+
+/-- the `again:` loop: whenever it returns a table, that table is well formed and stands for `insert` -/
+theorem assignLoop_spec {o : Ops K} (ho : HashOK o) {hash : UInt64} {k : K} {v : V}
+    (hunh : o.unhashable k = false) : ∀ (fuel : Nat) (h : HMap K V), WF o h →
+    (o.eq k k = true → hash = o.hash h.hash0 k) →
+    (∀ h', assignLoop o hash k v fuel h = .ok h' →
+      WF o h' ∧ (abs h').Perm (insert o.eq o.needKeyUpdate k v (abs h))) ∧
+    (∀ e, assignLoop o hash k v fuel h = .error e → e = .loop) := by
+  intro fuel
+  induction fuel with
+  | zero => intro h _ _; exact ⟨(fun h' e => by simp [assignLoop] at e), (fun e he => by simp [assignLoop] at he; exact he.symm)⟩
+  | succ fuel ih =>
+    intro h hw hhash
+    -- growWork (if growing)
+    have hgw : ∃ h3, assignPass o h hash k v = .ok (assignCore o h3 hash k v) ∧ WF o h3 ∧
+        (abs h3).Perm (abs h) ∧ h3.B = h.B ∧ h3.hash0 = h.hash0 ∧ Home h3 (bucketIdx hash h.B) := by
+      unfold assignPass
+      cases hg : h.growing with
+      | true =>
+        obtain ⟨h3, e, a1, a2, a3, a4, _, a6, _⟩ := growWork_spec ho hw (bucketIdx hash h.B)
+        refine ⟨h3, ?_, a1, a2, a3, a4, a6⟩
+        simp only [if_true, e, bind, Except.bind, pure, Except.pure]
+      | false =>
+        refine ⟨h, by simp [bind, Except.bind, pure, Except.pure], hw, List.Perm.refl _, rfl, rfl, ?_⟩
+        unfold Home
+        cases ho' : h.old with
+        | none => trivial
+        | some oa => simp [HMap.growing, ho'] at hg
+    obtain ⟨h3, hpass, hw3, hp3, hB3, h03, hhome3⟩ := hgw
+    have hpost := assignCore_spec ho hw3 (hash := hash) (k := k) (v := v) (by rw [hB3]; exact hhome3)
+      (fun hr => by rw [h03]; exact hhash hr) hunh
+    simp only [assignLoop, hpass, bind, Except.bind]
+    cases hres : assignCore o h3 hash k v with
+    | done h4 =>
+      rw [hres] at hpost
+      obtain ⟨hw4, hp4, _⟩ := hpost
+      simp only [pure, Except.pure]
+      refine ⟨fun h' e => ?_, (fun e he => by cases he)⟩
+      cases e
+      exact ⟨hw4, hp4.trans (insert_perm ho.eqok hp3 hw3.nodup)⟩
+    | again h4 =>
+      rw [hres] at hpost
+      obtain ⟨e4, hold3⟩ := hpost
+      simp only
+      obtain ⟨gw, gabs, _, g0, _⟩ := hashGrow_spec hw3 hold3
+      rw [← e4] at gw gabs g0
+      obtain ⟨i1, i2⟩ := ih h4 gw (fun hr => by rw [g0, h03]; exact hhash hr)
+      refine ⟨fun h' e => ?_, i2⟩
+      obtain ⟨w', p'⟩ := i1 h' e
+      refine ⟨w', p'.trans ?_⟩
+      rw [gabs]
+      exact insert_perm ho.eqok hp3 hw3.nodup
+
+/-- **mapassign refines `insert`** (all table states, growth included) -/
+theorem mapassign_spec {o : Ops K} (ho : HashOK o) {h : HMap K V} (hi : Inv o h) (k : K) (v : V) :
+    (∀ h', mapassign o h k v = .ok h' →
+      WF o h' ∧ (abs h').Perm (insert o.eq o.needKeyUpdate k v (abs h))) ∧
+    (∀ e, mapassign o h k v = .error e → (e = .unhashable ∧ o.unhashable k = true) ∨ e = .loop) := by
+  unfold mapassign
+  cases hu : o.unhashable k with
+  | true =>
+    have : hashKey o h.hash0 k h = .error .unhashable := by simp [hashKey, hu]
+    simp only [this, bind, Except.bind]
+    exact ⟨(fun h' e => by cases e), (fun e he => by cases he; exact Or.inl ⟨rfl, trivial⟩)⟩
+  | false =>
+    obtain ⟨hash, h1, hk, hs, hrefl⟩ := hashKey_ok (s := h.hash0) h hu
+    simp only [hk, bind, Except.bind]
+    have hi1 := inv_same hi hs
+    have habs1 := abs_same hs
+    -- allocation of the first bucket
+    have hal : ∃ h2, (if h1.buckets.isEmpty = true then { h1 with buckets := #[freshBucket K V] } else h1) = h2 ∧
+        WF o h2 ∧ abs h2 = abs h1 ∧ h2.hash0 = h1.hash0 := by
+      rcases hi1 with hw1 | hl1
+      · have : h1.buckets.isEmpty = false := by
+          have := hw1.size
+          have hp : 0 < 2 ^ h1.B := Nat.pow_pos (by omega)
+          cases hb : h1.buckets.isEmpty with
+          | false => rfl
+          | true => simp [Array.isEmpty_iff] at hb; rw [hb] at this; simp at this; omega
+        exact ⟨h1, by simp [this], hw1, rfl, rfl⟩
+      · have : h1.buckets.isEmpty = true := by rw [hl1.buckets]; rfl
+        refine ⟨{ h1 with buckets := #[freshBucket K V] }, by simp [this], wf_alloc hl1, ?_, rfl⟩
+        rw [abs_lazy hl1]
+        unfold abs allCells cellsOf
+        simp only [hl1.old, Option.getD_none, chainAbs_append]
+        simp [freshBucket_abs]
+    obtain ⟨h2, e2, hw2, habs2, h02⟩ := hal
+    rw [e2]
+    obtain ⟨l1, l2⟩ := assignLoop_spec ho (hash := hash) (v := v) hu 8 h2 hw2 (fun hr => by
+      rw [h02, hs.hash0]; exact (hrefl hr).1)
+    refine ⟨fun h' e => ?_, fun e he => Or.inr (l2 e he)⟩
+    obtain ⟨w, p⟩ := l1 h' e
+    rw [habs2, habs1] at p
+    exact ⟨w, p⟩
+
+
+/-- **mapdelete refines `erase`** -/
+theorem mapdelete_spec {o : Ops K} (ho : HashOK o) {h : HMap K V} (hi : Inv o h) (k : K) :
+    (∀ h', mapdelete o h k = .ok h' → Inv o h' ∧ (abs h').Perm (erase o.eq k (abs h))) ∧
+    (∀ e, mapdelete o h k = .error e → e = .unhashable ∧ o.unhashable k = true) := by
+  unfold mapdelete
+  cases hu : o.unhashable k with
+  | true =>
+    have hk : ∀ s, hashKey o s k h = .error .unhashable := fun s => by simp [hashKey, hu]
+    by_cases hc : h.count = 0
+    · have habs := abs_nil_of_count hi hc
+      simp only [hc, beq_self_eq_true, if_true]
+      cases o.hashMightPanic with
+      | true =>
+        simp only [if_true, hk, bind, Except.bind]
+        exact ⟨(fun h' e => by cases e), (fun e he => by cases he; exact ⟨rfl, trivial⟩)⟩
+      | false =>
+        simp only [Bool.false_eq_true, if_false, pure, Except.pure]
+        refine ⟨fun h' e => ?_, (fun e he => by cases he)⟩
+        cases e
+        rw [habs]; exact ⟨hi, List.Perm.refl _⟩
+    · have hc' : (h.count == 0) = false := by simpa using hc
+      simp only [hc', Bool.false_eq_true, if_false, hk, bind, Except.bind]
+      exact ⟨(fun h' e => by cases e), (fun e he => by cases he; exact ⟨rfl, trivial⟩)⟩
+  | false =>
+    by_cases hc : h.count = 0
+    · have habs := abs_nil_of_count hi hc
+      simp only [hc, beq_self_eq_true, if_true]
+      cases o.hashMightPanic with
+      | true =>
+        obtain ⟨hash, h1, hk, hs, _⟩ := hashKey_ok (s := 0) h hu
+        simp only [if_true, hk, bind, Except.bind, pure, Except.pure]
+        refine ⟨fun h' e => ?_, (fun e he => by cases he)⟩
+        cases e
+        rw [abs_same hs, habs]; exact ⟨inv_same hi hs, List.Perm.refl _⟩
+      | false =>
+        simp only [Bool.false_eq_true, if_false, pure, Except.pure]
+        refine ⟨fun h' e => ?_, (fun e he => by cases he)⟩
+        cases e
+        rw [habs]; exact ⟨hi, List.Perm.refl _⟩
+    · have hc' : (h.count == 0) = false := by simpa using hc
+      have hw : WF o h := by
+        rcases hi with hw | hl
+        · exact hw
+        · exact absurd hl.count hc
+      obtain ⟨hash, h1, hk, hs, hrefl⟩ := hashKey_ok (s := h.hash0) h hu
+      have hw1 := wf_same hw hs
+      simp only [hc', Bool.false_eq_true, if_false, hk, bind, Except.bind]
+      have hgw : ∃ h3, deletePass o h1 hash k = .ok (deleteCore o h3 hash k) ∧ WF o h3 ∧
+          (abs h3).Perm (abs h1) ∧ h3.B = h1.B ∧ h3.hash0 = h1.hash0 ∧ Home h3 (bucketIdx hash h1.B) := by
+        unfold deletePass
+        cases hg : h1.growing with
+        | true =>
+          obtain ⟨h3, e, a1, a2, a3, a4, _, a6, _⟩ := growWork_spec ho hw1 (bucketIdx hash h1.B)
+          refine ⟨h3, ?_, a1, a2, a3, a4, a6⟩
+          simp only [if_true, e, bind, Except.bind, pure, Except.pure]
+        | false =>
+          refine ⟨h1, by simp [bind, Except.bind, pure, Except.pure], hw1, List.Perm.refl _, rfl, rfl, ?_⟩
+          unfold Home
+          cases ho' : h1.old with
+          | none => trivial
+          | some oa => simp [HMap.growing, ho'] at hg
+      obtain ⟨h3, hg3, hw3, hp3, hB3, h03, hhome3⟩ := hgw
+      rw [hg3]
+      refine ⟨fun h' e => ?_, (fun e he => by cases he)⟩
+      cases e
+      obtain ⟨dw, dabs, _⟩ := deleteCore_spec ho hw3 (hash := hash) (k := k) (by rw [hB3]; exact hhome3)
+        (fun hr => by rw [h03, hs.hash0]; exact (hrefl hr).1)
+      refine ⟨Or.inl dw, ?_⟩
+      rw [dabs]
+      rw [abs_same hs] at hp3
+      exact erase_perm ho.eqok hp3 hw3.nodup
+
+
+omit [Inhabited K] [Inhabited V] in
+theorem lookup_append_absent_left {eq : K → K → Bool} {k : K} {a b : AList K V} (ha : Absent eq k a) :
+    lookup eq k (a ++ b) = lookup eq k b := by
+  induction a with
+  | nil => rfl
+  | cons p r ih =>
+    obtain ⟨k', v⟩ := p
+    have : eq k k' = false := ha (k', v) (by simp)
+    simp only [List.cons_append, lookup, this]
+    exact ih (fun p hp => ha p (by simp [hp]))
+
+omit [Inhabited K] [Inhabited V] in
+theorem lookup_append_absent_right {eq : K → K → Bool} {k : K} {a b : AList K V} (hb : Absent eq k b) :
+    lookup eq k (a ++ b) = lookup eq k a := by
+  induction a with
+  | nil => simp only [List.nil_append]; rw [lookup_absent hb]; rfl
+  | cons p r ih =>
+    obtain ⟨k', v⟩ := p
+    simp only [List.cons_append, lookup]
+    split
+    · rfl
+    · exact ih
+
+/-- while the map grows, a key whose old bucket is not evacuated yet can only sit in that old bucket -/
+theorem absent_outside_old {o : Ops K} (ho : HashOK o) {h : HMap K V} (hw : WF o h) {oa : Array (Chain K V)}
+    (hold : h.old = some oa) {k : K} {j : Nat} (hj : j < oa.size) (hne : evacuatedChain oa[j] = false)
+    (hidx : o.eq k k = true → (o.hash h.hash0 k).toNat % h.noldbuckets = j) :
+    Absent o.eq k (chainAbs (cellsOf h.buckets ++ (oa.toList.take j).flatten)) ∧
+    Absent o.eq k (chainAbs ((oa.toList.drop (j + 1)).flatten)) := by
+  have hO := hw.old
+  rw [hold] at hO
+  simp only at hO
+  obtain ⟨_, _, _, _, _, fx, fy⟩ := (hO.chains j hj).2 hne
+  obtain ⟨q, hq, hpos⟩ := nold_dvd hw hold
+  have hjn : j < h.noldbuckets := by rw [← hO.size]; exact hj
+  -- cells of other old chains
+  have oldc : ∀ j' (hj' : j' < oa.size) x, x ∈ oa[j'] → x.live = true → o.eq k x.key = true → j' = j := by
+    intro j' hj' x hx hl hk
+    obtain ⟨hev, hnev⟩ := hO.chains j' hj'
+    cases he : evacuatedChain oa[j'] with
+    | true => have := hev he x hx; rw [hl] at this; cases this
+    | false =>
+      obtain ⟨_, _, hpl, _⟩ := hnev he
+      have hp := hpl x hx hl (ho.eqok.refl_right hk)
+      rw [← hidx (ho.eqok.refl_left hk), ho.hash_eq _ k x.key hk]
+      exact hp.2.symm
+  -- cells of the new array
+  have newc : ∀ i (hi : i < h.buckets.size) x, x ∈ h.buckets[i] → x.live = true → o.eq k x.key = true → False := by
+    intro i hi x hx hl hk
+    have hp := (hw.newOK i hi).2.2.1 x hx hl (ho.eqok.refl_right hk)
+    have hik : (o.hash h.hash0 k).toNat % 2 ^ h.B = i := by rw [ho.hash_eq _ k x.key hk]; exact hp.2
+    have himod : i % h.noldbuckets = j := by
+      rw [← hik, hq, Nat.mod_mul_left_mod]; exact hidx (ho.eqok.refl_left hk)
+    have hi2 : i < 2 ^ h.B := by rw [← hw.size]; exact hi
+    have hfresh : h.buckets[i]? = some (freshBucket K V) := by
+      cases hs : h.sameSizeGrow with
+      | true =>
+        have : h.noldbuckets = 2 ^ h.B := by simp [HMap.noldbuckets, hs]
+        rw [this, Nat.mod_eq_of_lt hi2] at himod
+        rw [himod]; exact fx
+      | false =>
+        have hB := hO.bpos hs
+        have h2n : 2 ^ h.B = 2 * h.noldbuckets := by
+          simp only [HMap.noldbuckets, hs]
+          have : h.B = (h.B - 1) + 1 := by omega
+          conv => lhs; rw [this, Nat.pow_succ]
+          simp; omega
+        by_cases hlt : i < h.noldbuckets
+        · rw [Nat.mod_eq_of_lt hlt] at himod
+          rw [himod]; exact fx
+        · have : i % h.noldbuckets = i - h.noldbuckets := by
+            rw [Nat.mod_eq_sub_mod (by omega), Nat.mod_eq_of_lt (by omega)]
+          have hij : i = j + h.noldbuckets := by omega
+          rw [hij]; exact fy hs
+    obtain ⟨_, e⟩ := getElem_of_getElem? hfresh
+    rw [e] at hx
+    rw [List.eq_of_mem_replicate hx] at hl
+    simp [Cell.live, emptyRest] at hl
+  constructor
+  · intro p hp
+    obtain ⟨x, hx, hl, rfl⟩ := mem_chainAbs hp
+    cases hk : o.eq k x.key with
+    | false => rfl
+    | true =>
+      exfalso
+      rcases List.mem_append.1 hx with hx | hx
+      · obtain ⟨i, hi, hxi⟩ := mem_cellsOf hx
+        exact newc i hi x hxi hl hk
+      · obtain ⟨i, hib, hi, hxi⟩ := mem_take_flatten hx
+        have := oldc i (by simpa using hi) x (by simpa using hxi) hl hk
+        omega
+  · intro p hp
+    obtain ⟨x, hx, hl, rfl⟩ := mem_chainAbs hp
+    cases hk : o.eq k x.key with
+    | false => rfl
+    | true =>
+      exfalso
+      obtain ⟨i, hib, hi, hxi⟩ := mem_drop_flatten hx
+      have := oldc i (by simpa using hi) x (by simpa using hxi) hl hk
+      omega
+
+/-- the chain mapaccess searches holds the key's entry, if there is one -/
+theorem access_spec {o : Ops K} (ho : HashOK o) {h : HMap K V} (hw : WF o h) {hash : UInt64} {k : K}
+    (hhash : o.eq k k = true → hash = o.hash h.hash0 k) :
+    (lookupChain o.eq (tophash hash) k (accessChain h hash)).map (·.val) = lookup o.eq k (abs h) := by
+  have h5 := tophash_toNat_ge hash
+  have htk : o.eq k k = true → tophash hash = tophash (o.hash h.hash0 k) := fun hr => by rw [← hhash hr]
+  have hb : bucketIdx hash h.B < h.buckets.size := by rw [hw.size]; exact bucketIdx_lt _ _
+  -- searching the home chain of the current array
+  have newcase : Home h (bucketIdx hash h.B) →
+      (lookupChain o.eq (tophash hash) k (h.buckets.getD (bucketIdx hash h.B) [])).map (·.val) =
+        lookup o.eq k (abs h) := by
+    intro hhome
+    obtain ⟨hN, hR, hP, hH, _⟩ := hw.newOK _ hb
+    obtain ⟨aP, aS⟩ := absent_outside ho hw hhome (fun hr => by rw [← hhash hr]; rfl)
+    rw [abs_split hb, lookup_append_absent_right aS, lookup_append_absent_left aP, getD_eq hb,
+      lookupChain_eq ho h5 htk hR hP.tops, lookup_chainAbs]
+  unfold accessChain
+  cases hold : h.old with
+  | none =>
+    simp only
+    apply newcase
+    unfold Home; rw [hold]; trivial
+  | some oa =>
+    simp only
+    have hO := hw.old
+    rw [hold] at hO
+    simp only at hO
+    have hj : hash.toNat % h.noldbuckets < oa.size := by rw [hO.size]; exact Nat.mod_lt _ (nold_pos h)
+    rw [getD_eq hj]
+    cases hev : evacuatedChain oa[hash.toNat % h.noldbuckets] with
+    | true =>
+      simp only [Bool.not_true, Bool.false_eq_true, if_false]
+      apply newcase
+      unfold Home
+      rw [hold]
+      simp only
+      obtain ⟨q, hq, _⟩ := nold_dvd hw hold
+      have : bucketIdx hash h.B % h.noldbuckets = hash.toNat % h.noldbuckets := by
+        unfold bucketIdx; rw [hq, Nat.mod_mul_left_mod]
+      rw [this, getD_eq hj]; exact hev
+    | false =>
+      simp only [Bool.not_false, if_true]
+      obtain ⟨sN, sR, sP, _⟩ := (hO.chains _ hj).2 hev
+      obtain ⟨aP, aS⟩ := absent_outside_old ho hw hold hj hev (fun hr => by rw [← hhash hr])
+      have hsplit : abs h = chainAbs (cellsOf h.buckets ++ (oa.toList.take (hash.toNat % h.noldbuckets)).flatten) ++
+          chainAbs oa[hash.toNat % h.noldbuckets] ++
+          chainAbs ((oa.toList.drop (hash.toNat % h.noldbuckets + 1)).flatten) := by
+        unfold abs allCells
+        rw [hold]
+        simp only [Option.getD_some]
+        rw [cellsOf_split hj]
+        simp [chainAbs_append]
+      rw [hsplit, lookup_append_absent_right aS, lookup_append_absent_left aP,
+        lookupChain_eq ho h5 htk sR sP.tops, lookup_chainAbs]
+
+/-- **mapaccess1/2 refine `lookup`** -/
+theorem mapaccess_spec {o : Ops K} (ho : HashOK o) {h : HMap K V} (hi : Inv o h) (k : K) :
+    (∀ r h', mapaccess o h k = .ok (r, h') →
+      r.map (·.val) = lookup o.eq k (abs h) ∧ Inv o h' ∧ abs h' = abs h) ∧
+    (∀ e, mapaccess o h k = .error e → e = .unhashable ∧ o.unhashable k = true) := by
+  unfold mapaccess
+  cases hu : o.unhashable k with
+  | true =>
+    have hk : ∀ s, hashKey o s k h = .error .unhashable := fun s => by simp [hashKey, hu]
+    by_cases hc : h.count = 0
+    · have habs := abs_nil_of_count hi hc
+      simp only [hc, beq_self_eq_true, if_true]
+      cases o.hashMightPanic with
+      | true =>
+        simp only [if_true, hk, bind, Except.bind]
+        exact ⟨(fun r h' e => by cases e), (fun e he => by cases he; exact ⟨rfl, trivial⟩)⟩
+      | false =>
+        simp only [Bool.false_eq_true, if_false, pure, Except.pure]
+        refine ⟨fun r h' e => ?_, (fun e he => by cases he)⟩
+        cases e
+        rw [habs]; exact ⟨rfl, hi, rfl⟩
+    · have hc' : (h.count == 0) = false := by simpa using hc
+      simp only [hc', Bool.false_eq_true, if_false, hk, bind, Except.bind]
+      exact ⟨(fun r h' e => by cases e), (fun e he => by cases he; exact ⟨rfl, trivial⟩)⟩
+  | false =>
+    by_cases hc : h.count = 0
+    · have habs := abs_nil_of_count hi hc
+      simp only [hc, beq_self_eq_true, if_true]
+      cases o.hashMightPanic with
+      | true =>
+        obtain ⟨hash, h1, hk, hs, _⟩ := hashKey_ok (s := 0) h hu
+        simp only [if_true, hk, bind, Except.bind, pure, Except.pure]
+        refine ⟨fun r h' e => ?_, (fun e he => by cases he)⟩
+        cases e
+        rw [habs]; exact ⟨rfl, inv_same hi hs, (abs_same hs).trans habs⟩
+      | false =>
+        simp only [Bool.false_eq_true, if_false, pure, Except.pure]
+        refine ⟨fun r h' e => ?_, (fun e he => by cases he)⟩
+        cases e
+        rw [habs]; exact ⟨rfl, hi, rfl⟩
+    · have hc' : (h.count == 0) = false := by simpa using hc
+      have hw : WF o h := by
+        rcases hi with hw | hl
+        · exact hw
+        · exact absurd hl.count hc
+      obtain ⟨hash, h1, hk, hs, hrefl⟩ := hashKey_ok (s := h.hash0) h hu
+      have hw1 := wf_same hw hs
+      simp only [hc', Bool.false_eq_true, if_false, hk, bind, Except.bind, pure, Except.pure]
+      refine ⟨fun r h' e => ?_, (fun e he => by cases he)⟩
+      cases e
+      refine ⟨?_, Or.inl hw1, abs_same hs⟩
+      rw [← abs_same hs]
+      exact access_spec ho hw1 (fun hr => by rw [hs.hash0]; exact (hrefl hr).1)
+
+theorem freshArray_wf (o : Ops K) {h : HMap K V} (hb : h.buckets = freshArray K V h.B) (hold : h.old = none)
+    (hs : h.sameSizeGrow = false) (hc : h.count = 0) : WF o h := by
+  have habs : abs h = [] := by
+    unfold abs allCells
+    rw [hb, hold]
+    simp only [Option.getD_none, chainAbs_append, cellsOf_fresh_abs]
+    simp [cellsOf]
+  apply wf_intro
+  · rw [hb]; simp [freshArray]
+  · intro i c hc'
+    rw [hb] at hc'
+    unfold freshArray at hc'
+    rw [Array.getElem?_replicate] at hc'
+    by_cases hlt : i < 2 ^ h.B
+    · simp only [hlt, if_true, Option.some.injEq] at hc'
+      rw [← hc']; exact freshBucket_ok _ _ _ _
+    · simp only [hlt, if_false] at hc'; cases hc'
+  · rw [habs, hc]; rfl
+  · rw [habs]; exact List.Pairwise.nil
+  · rw [hold]; exact hs
+
+/-- **makemap** yields the empty map -/
+theorem makemap_spec (o : Ops K) (hint : Nat) (r : Rand) :
+    Inv o (makemap hint r : HMap K V) ∧ abs (makemap hint r : HMap K V) = [] := by
+  have key : Inv o (makemap hint r : HMap K V) := by
+    unfold makemap
+    simp only
+    by_cases hB : pickB hint 64 0 = 0
+    · right
+      simp only [hB]
+      exact ⟨rfl, rfl, rfl, rfl, rfl⟩
+    · left
+      apply freshArray_wf
+      · simp [hB]
+      · rfl
+      · rfl
+      · rfl
+  refine ⟨key, abs_nil_of_count key ?_⟩
+  unfold makemap; rfl
+
+/-- **mapclear** yields the empty map -/
+theorem mapclear_spec {o : Ops K} {h : HMap K V} (hi : Inv o h) :
+    Inv o (mapclear h) ∧ abs (mapclear h) = [] := by
+  unfold mapclear
+  by_cases hc : h.count = 0
+  · simp only [hc, beq_self_eq_true, if_true]
+    exact ⟨hi, abs_nil_of_count hi hc⟩
+  · have hc' : (h.count == 0) = false := by simpa using hc
+    have hw : WF o h := by
+      rcases hi with hw | hl
+      · exact hw
+      · exact absurd hl.count hc
+    simp only [hc', Bool.false_eq_true, if_false]
+    have hwf : WF o { h.fastrand.2 with
+        sameSizeGrow := false, old := none, nevacuate := 0, noverflow := 0, count := 0, hash0 := h.fastrand.1,
+        buckets := Array.replicate h.fastrand.2.buckets.size (freshBucket K V),
+        dead := (match h.old with | some oa => (h.gen - 1, markEmpty oa) :: h.dead | none => h.dead) } := by
+      apply freshArray_wf
+      · show Array.replicate _ _ = freshArray K V h.B
+        unfold freshArray
+        have : h.fastrand.2.buckets.size = 2 ^ h.B := hw.size
+        rw [this]
+      · rfl
+      · rfl
+      · rfl
+    exact ⟨Or.inl hwf, abs_nil_of_count (Or.inl hwf) rfl⟩
+
 end LlgoVerif.HMap
